@@ -22,3 +22,13 @@ package stream
 //@   requires s != nil
 //@   modifies s.next
 //@   ensures rebound: s.next == next && result == nil
+
+// construction: options set limits and logging only (assumed: they do not rebind the handler or keep the object)
+//@ functype stream.Option
+//@   params s
+//@   modifies s.maxRequestBodyBytes, s.maxResponseBodyBytes, s.verbose, s.log
+//@ func New
+//@   props C20
+//@   modifies nothing
+//@   ensures wired: result1 == nil ==> result0 != nil && fresh(result0) && result0.next == next
+//@   loop 1 invariant strm != nil && fresh(strm) && strm.next == next
